@@ -15,20 +15,7 @@ ASSUME = [
 ]
 
 
-def unbound_kind(spec, name):
-    m = spec.get("mapping") or {}
-    lo = sum((m.get("loop-order") or {}).values(), [])
-    part = m.get("partitioning") or {}
-    if name in lo and name[-1:].isdigit():
-        return "level-name-as-size"
-    if name.upper() in lo and name.islower():
-        for ranks in part.values():
-            for key in (ranks or {}):
-                if key.strip().startswith("("):
-                    flat = "".join(x.strip() for x in key.strip()[1:-1].split(","))
-                    if name.upper().startswith(flat):
-                        return "flattened-rank-coord-stamp"
-    return name
+unbound_kind = e1.unbound_kind
 
 
 def work(job):
